@@ -17,6 +17,7 @@ from ..provider.location import GenericParamLoc, TypeHintLoc
 from ..special_cases_optimization import as_is_stub
 from ..type_tools import BaseNormType, NormTypeAlias, is_new_type, is_subclass_soft, strip_tags
 from ..type_tools.basic_utils import eval_forward_ref, get_forward_ref_namespace
+from ..type_tools.implicit_params import fill_implicit_params
 from ..utils import MappingHashWrapper
 from .load_error import BadVariantLoadError, LoadError, TypeLoadError, UnionLoadError
 from .provider_template import DumperProvider, LoaderProvider
@@ -58,6 +59,8 @@ class TypeAliasUnwrappingProvider(LocatedRequestDelegatingProvider):
             raise CannotProvide
 
         if not norm.args:
+            if norm.type_params:  # bare generic alias is the alias with implicit parameters
+                return fill_implicit_params(norm.origin)
             return norm.value
         return self._substitute(norm.value, norm.origin.__type_params__, tuple(arg.source for arg in norm.args))
 
